@@ -45,6 +45,22 @@ def crewCount (stationary : Bool) (crews : Nat) : Nat := if stationary then 1 el
 def upfrontCost (c : MethodCost) (stationary : Bool) (crews : Nat) : Int :=
   c.upfront * (crewCount stationary crews : Nat)
 
+/-- constructing a method *reads* the cost block: the block is handed on unchanged (mutation becomes
+return: the second component is the dict after `Method.__init__`).  `SimulationManager._setup_programs`
+hands the same method-parameter dict to every program of every simulation, so several methods are
+built from it one after another (`constructAll`). -/
+def construct (c : MethodCost) (stationary : Bool) (crews : Nat) : Int × MethodCost :=
+  (upfrontCost c stationary crews, c)
+
+/-- the upfront costs of the methods built one after another from one parameter dict, and the dict
+afterwards -/
+def constructAll : List (Bool × Nat) → MethodCost → List Int × MethodCost
+  | [], c => ([], c)
+  | (st, n) :: bs, c =>
+    let r := construct c st n
+    let rest := constructAll bs r.2
+    (r.1 :: rest.1, rest.2)
+
 /-- the method description `deploy_crews` works with -/
 def methodP (c : MethodCost) (stationary considerWeather : Bool) (env : Envelope) : MethodP :=
   { stationary := stationary, perSite := decide ((selectCost c).1 = .perSite), unitCost := (selectCost c).2,
